@@ -13,6 +13,9 @@ import (
 	"net/http"
 	"net/http/httptest"
 	"net/url"
+	"path/filepath"
+	"reflect"
+	"runtime"
 	"runtime/debug"
 	"sort"
 	"strings"
@@ -255,7 +258,7 @@ func (e *Env) PanicOf(r Req) (val string) {
 	}
 	defer func() {
 		if rv := recover(); rv != nil {
-			st := string(debug.Stack())
+			st := normRepo(string(debug.Stack()))
 			// keep the frames of the repository only
 			var keep []string
 			lines := strings.Split(st, "\n")
@@ -328,4 +331,27 @@ func errorEnvelope(body string) bool {
 
 func isEngine(r Resp) bool {
 	return strings.Contains(r.Log, "pgsim:") || strings.Contains(r.Body, "pgsim:")
+}
+
+// repoRoot is the directory the ledger module was compiled from (go.mod `replace`): /repo
+// in production, a worktree elsewhere. Stack traces are normalised to "/repo/" so that
+// panic sites (signature components) do not depend on where the source tree lives.
+var repoRoot = func() string {
+	f := runtime.FuncForPC(reflect.ValueOf(api.NewRouter).Pointer())
+	if f == nil {
+		return "/repo"
+	}
+	file, _ := f.FileLine(f.Entry())
+	const suffix = "/internal/api/router.go"
+	if strings.HasSuffix(filepath.ToSlash(file), suffix) {
+		return strings.TrimSuffix(filepath.ToSlash(file), suffix)
+	}
+	return "/repo"
+}()
+
+func normRepo(s string) string {
+	if repoRoot == "/repo" {
+		return s
+	}
+	return strings.ReplaceAll(s, repoRoot+"/", "/repo/")
 }
